@@ -93,6 +93,8 @@ def run(eng, ctx, reader_side=True):
     ctx.rule("C11.D1", "stores to the buffer: fresh bytearray() in the constructor; += of recv() data (optionally dechunked) on the receiver's success path; front truncation in read - nothing else")
     nst = 0
     for f in eng.repo.methods(mod, cls):
+        if eng.is_inlined_helper(f.qualname) and {c.caller for c in eng.res.callers_of(f.qualname)} <= {rd.qualname, rv.qualname, f"{eng.socket_cls}.readline"}:
+            continue  # a private helper of read / the receiver: its stores are examined where it is inlined
         se = sr if f is rd else eng.symeval(f.qualname)
         for e in se.effects:
             tgt = e.target
